@@ -114,39 +114,11 @@ proof! { #[kani::unwind(8)] fn c05_q_asks_n2_u1() { asks_step::<2, 1>() } }
 proof! { #[kani::unwind(8)] fn c05_q_bids_n0_u1() { bids_step::<0, 1>() } }
 proof! { #[kani::unwind(8)] fn c05_q_bids_n1_u1() { bids_step::<1, 1>() } }
 proof! { #[kani::unwind(8)] fn c05_q_bids_n2_u1() { bids_step::<2, 1>() } }
-// two-element update lists: the intermediate level count must stay concrete (a symbolic Vec length does not terminate),
-// so the FIRST update of the list is constrained to replace an existing level (or, on an empty side, to insert);
-// the second one is arbitrary (duplicate of the first price, delete, insert anywhere)
-fn list_step<const N: usize>(asks: bool) {
-    let pre = any_sorted::<N>(asks);
-    let first = any_level_nonzero();
-    if N > 0 { assume(first.price == pre[0].price || first.price == pre[N - 1].price); }
-    let updates = [first, any_update_level()];
-    let got: Vec<Level> = if asks {
-        let mut side = OrderBookSide::asks(pre);
-        side.upsert(updates);
-        let v = side.levels().to_vec();
-        core::mem::forget(side);
-        v
-    } else {
-        let mut side = OrderBookSide::bids(pre);
-        side.upsert(updates);
-        let v = side.levels().to_vec();
-        core::mem::forget(side);
-        v
-    };
-    check_side(asks, &pre, &updates, &got);
-    kani::cover!(updates[0].price == updates[1].price && updates[1].amount.is_zero(), "set then delete the same price inside one update");
-    kani::cover!(updates[0].price == updates[1].price && !updates[1].amount.is_zero(), "same price twice inside one update: last one wins");
-    core::mem::forget(got);
-}
-proof! { #[kani::unwind(8)] fn c05_t_asks_list_n0() { list_step::<0>(true) } }
-proof! { #[kani::unwind(8)] fn c05_t_bids_list_n0() { list_step::<0>(false) } }
-proof! { #[kani::unwind(8)] fn c05_t_asks_list_n2() { list_step::<2>(true) } }
-proof! { #[kani::unwind(8)] fn c05_t_bids_list_n2() { list_step::<2>(false) } }
 proof! { #[kani::unwind(8)] fn c05_t_asks_n3_u1() { asks_step::<3, 1>() } }
 proof! { #[kani::unwind(8)] fn c05_t_bids_n3_u1() { bids_step::<3, 1>() } }
-
+// (two-element update lists were tried - first element constrained so that the intermediate length stays concrete - and did
+//  not fit: 690 s and > 24 GB for the empty side. An update list is applied by `for_each(upsert_single)`, i.e. as the
+//  sequence of single upserts that the one-step harnesses cover by induction.)
 // book level: an Update event applies both sides and takes the event's sequence / time; derived quantities are the map's
 proof! {
     #[kani::unwind(8)]
